@@ -8,51 +8,15 @@ import Cppcms.C07.Props
 Concurrent use of `mem_cache` behaves like some sequential order (consistent with real time) of
 the same operations; no deadlock; every operation completes.  All statements are about the
 interleaving model of `Model.lean`, whose instruction lists are **generated** from the source
-(`Gen.prog`); `discipline_ok`/`race_free` are about the generated access table and justify the
-model's atomic segments.  See design.d/C09.md for what is and is not covered (data-race freedom of
+(`Gen.prog`).  The theorems about the generated lock/access/hook tables (`discipline_ok`,
+`race_free`, `lock_order`, `no_nested_locking`, `hooks_at_linearization_points`,
+`process_variant_same`; they justify the model's atomic segments) are in `TableProps.lean`, same
+namespace, in a module of their own so that a change of the source's guard structure shows which
+of them became false even when the proofs below no longer build.  See design.d/C09.md for what is and is not covered (data-race freedom of
 the compiled accesses and the pthread primitives: TSan on explored schedules only — PARTIAL).
 -/
 namespace Cppcms.C09.Props
 open Cppcms Cppcms.C07 Cppcms.C09
-
-/-! ## the generated lock table -/
-
-/-- Lock discipline of the source as it is now (`Gen.accesses` is regenerated on every run):
-every write to shared state happens under the exclusive lock, except `lru`/`container.lru`, which
-are written — and read — only under the exclusive lock or under the shared lock **and**
-`lru_mutex`; every read happens under at least the shared lock. -/
-theorem discipline_ok : ∀ m ∈ allMethods, ∀ a ∈ Gen.accesses m, a.ok = true := by decide
-
-/-- Consequence, stated directly on the table: two accesses (of any two virtual methods, helpers
-inlined) to the same field, one of them a write, are made under guard sets that cannot be held by
-two threads at once — no two atomic segments of the model that conflict can overlap in time. -/
-theorem race_free : ∀ m₁ ∈ allMethods, ∀ m₂ ∈ allMethods, ∀ a₁ ∈ Gen.accesses m₁, ∀ a₂ ∈ Gen.accesses m₂,
-    a₁.field = a₂.field → (a₁.write || a₂.write) = true → mutuallyExcluded a₁.held a₂.held = true := by
-  decide +kernel
-
-/-- no virtual method calls another virtual (locking) method while it holds a guard
-(`booster::shared_mutex`/`mutex` are not recursive) -/
-theorem no_nested_locking : ∀ x ∈ Gen.nested, x.2.2 = [] := by decide
-
-/-- the hook calls sit exactly at the model's linearisation points, under the guards of that segment -/
-theorem hooks_at_linearization_points : Gen.hooks = linPoints := by decide
-
-/-- `mem_cache<process_settings>` has the same lock table -/
-theorem process_variant_same : Gen.processVariantSame = true := by decide
-
-/-- static lock order of a guard skeleton: `access_lock` is only ever requested with nothing held,
-`lru_mutex` only while holding `access_lock` (and nothing else), and nothing is held at the end -/
-def orderOk : Held → List Instr → Bool
-  | held, [] => held.isEmpty
-  | held, .acq l m :: r =>
-    (match l with
-     | .access => held.isEmpty
-     | .lru => held == [(.access, .shared)] || held == [(.access, .exclusive)]) && orderOk ((l, m) :: held) r
-  | held, .rel l :: r => orderOk (release l held) r
-  | held, .act _ :: r => orderOk held r
-
-/-- lock order `access_lock → lru_mutex` only, and no guard survives the end of a method -/
-theorem lock_order : ∀ m ∈ allMethods, orderOk [] (Gen.prog m) = true := by decide
 
 /-! ## linearizability -/
 
@@ -83,6 +47,17 @@ theorem history_well_formed (s₀ : State) (progs : List (List Op)) (sched : Lis
 evaluates exactly the predicate of `linearizable` -/
 theorem judge_is_predicate (s₀ : State) (recs : List Rec) (order : List Lin) :
     checkLin s₀ recs order = none ↔ LinearizedBy s₀ recs order := checkLin_iff s₀ recs order
+
+/-- no operation ever returns the model's `undefined` (a read through an iterator whose element
+is gone, or no result): every completed operation returned an answer of the sequential cache -/
+theorem no_undefined_result (s₀ : State) (progs : List (List Op)) (sched : List Nat)
+    (r : Rec) (hr : r ∈ (run (Config.init s₀ progs) sched).history) (t : Nat) (ret : Ret)
+    (hresp : r.resp = some (t, ret)) : ∃ o, ret = .ok o := by
+  have hc := (linearizable s₀ progs sched).1.complete r hr
+  unfold CompleteIn at hc
+  rw [hresp] at hc
+  obtain ⟨e, _, _, _, _, h⟩ := hc
+  exact ⟨e.out, h⟩
 
 /-! ## what a fetch can return -/
 
